@@ -23,6 +23,7 @@ var Registry = map[string]func(*core.Run){
 	"C12": CheckC12,
 	"C13": CheckC13,
 	"C14": CheckC14,
+	"C15": CheckC15,
 	"C16": CheckC16,
 	"C17": CheckC17,
 	"C09": CheckC09,
